@@ -104,6 +104,80 @@ def laws(F):
     return out
 
 
+def cs_laws(F):
+    """Cauchy-Schwarz as an identity: (u.u)(v.v) - (u.v)^2 == sum over i<j of (u_i v_j - u_j v_i)^2, for the types whose
+    angle() is the generic acos form (Vector1, Vector4, Quaternion); returns (laws, handwritten text using them)"""
+    from c_quat import Q
+    laws, text = [], ''
+    for key, T, dotf, leaves in (('v1', V[1], 'v1_dot', lambda a: [a.x]), ('v4', V[4], 'v4_dot', lambda a: [a.x, a.y, a.z, a.w]),
+                                 ('q', Q, 'q_dot', lambda a: [a.s, a.v.x, a.v.y, a.v.z])):
+        L = Law('%s_cs' % key, [('u', T), ('v', T)])
+        u, v = L.vars
+        lu, lv = leaves(u), leaves(v)
+        acc = None
+        calls = []
+        for i in range(len(lu)):
+            for j in range(i + 1, len(lu)):
+                t = lu[i] * lv[j] - lu[j] * lv[i]
+                acc = t * t if acc is None else acc + t * t
+                calls.append('lemma_sq_nonneg(%s);' % L.to_views(t.flat) if hasattr(L, 'to_views') else '')
+        d = F[dotf]
+        if acc is None:
+            L.eq(d(u, u) * d(v, v) - d(u, v) * d(u, v), R.lit(0))
+        else:
+            L.eq(d(u, u) * d(v, v) - d(u, v) * d(u, v), acc)
+        laws.append(L)
+        atoms = dict(L.atoms())
+        import re as _re
+        def views(flat):
+            return _re.sub(r'[A-Za-z_][A-Za-z0-9_]*', lambda mo: atoms.get(mo.group(0), mo.group(0)), flat)
+        sq = []
+        for i in range(len(lu)):
+            for j in range(i + 1, len(lu)):
+                t = lu[i] * lv[j] - lu[j] * lv[i]
+                sq.append('lemma_sq_nonneg(%s);' % views(t.flat))
+        nn_u = ' '.join('lemma_sq_nonneg(%s);' % views(x.flat) for x in lu)
+        nn_v = ' '.join('lemma_sq_nonneg(%s);' % views(x.flat) for x in lv)
+        Tt = T.TYPE
+        text += '''
+// generic acos form: |u||v| cos(angle(u, v)) = u.v and the angle lies in [0, pi]
+pub proof fn law_{k}_angle(u: {T}, v: {T})
+    requires {k}_dot(u, u)@ != 0real, {k}_dot(v, v)@ != 0real
+    ensures ({{ let th = {k}_angle_acos(u, v).0@;
+        &&& 0real <= th <= r_pi()
+        &&& (r_sqrt({k}_dot(u, u)@) * r_sqrt({k}_dot(v, v)@)) * r_cos(th) == {k}_dot(u, v)@ }}),
+{{
+    law_{k}_cs(u, v);
+    {sq}
+    {nn_u}
+    {nn_v}
+    lemma_acos_angle({k}_dot(u, v)@, {k}_dot(u, u)@, {k}_dot(v, v)@);
+}}
+'''.format(k=key, T=Tt, sq=' '.join(sq), nn_u=nn_u, nn_v=nn_v)
+    head = '''
+pub proof fn lemma_acos_angle(d: real, uu: real, vv: real)
+    requires uu > 0real, vv > 0real, d * d <= uu * vv
+    ensures ({ let m = r_sqrt(uu) * r_sqrt(vv); let th = r_acos(d / m);
+        &&& 0real <= th <= r_pi()
+        &&& m * r_cos(th) == d }),
+{
+    ax_sqrt(uu); ax_sqrt(vv);
+    let a = r_sqrt(uu);
+    let b = r_sqrt(vv);
+    let m = a * b;
+    assert(a > 0real) by(nonlinear_arith) requires a >= 0real, a * a == uu, uu > 0real;
+    assert(b > 0real) by(nonlinear_arith) requires b >= 0real, b * b == vv, vv > 0real;
+    assert(m > 0real) by(nonlinear_arith) requires a > 0real, b > 0real, m == a * b;
+    assert(m * m == uu * vv) by(nonlinear_arith) requires m == a * b, a * a == uu, b * b == vv;
+    let t = d / m;
+    lemma_div_mul(d, m);
+    assert(-1real <= t <= 1real) by(nonlinear_arith) requires m * t == d, d * d <= m * m, m > 0real;
+    ax_acos(t);
+}
+'''
+    return laws, head + text
+
+
 def handwritten():
     t = '''
 pub proof fn lemma_sq_nonneg(x: real) ensures x * x >= 0real { assert(x * x >= 0real) by(nonlinear_arith); }
